@@ -66,6 +66,7 @@ def reader_zero_based(ctx):
 def BOUNDS(ctx):
     return {"exhaustive_shapes_n": 4 if ctx.quick else 5,
             "random_trees": 40 if ctx.quick else 700, "random_max_n": 8 if ctx.quick else 12,
+            "long_sentences": 6 if ctx.quick else 40, "long_sentence_tokens": "10..13",
             "sentences_per_corpus": "1..3",
             "bracket_sequence_len": 7 if ctx.quick else 9,
             "bracket_sequence_len_emptypos": 6 if ctx.quick else 8,
@@ -518,6 +519,8 @@ def _sequences(L):
 def _corpora(ctx, b):
     rng = ctx.rng
     specs = list(tg.enum_specs(b["exhaustive_shapes_n"], rng=rng, per_shape=1))
+    # a few long sentences first (two-digit token numbers / ids: order by number, not by the digits' text)
+    specs = list(tg.random_specs(rng, b["long_sentences"], 10, 13, unary_p=0.2, shuffle=True)) + specs
     specs += list(tg.random_specs(rng, b["random_trees"], 1, b["random_max_n"], unary_p=0.3, shuffle=True))
     sizes = itertools.cycle([1, 2, 3])
     i = 0
